@@ -1,6 +1,19 @@
 """Per-property configuration of ./check."""
 
+COMMON_ASSUMPTIONS = [
+    "atomicity: everything a task does inside one poll is atomic w.r.t. other tasks (single-thread executor)",
+    "the model (Model/Actor.lean) describes hannibal at API-event granularity; its tie to the code is trace acceptance",
+]
+
 PROPS = {
+    "C14": {
+        "modules": ["Hannibal.Props.C14", "Hannibal.Props.C14Current"],
+        "theorems": ["Hannibal.C14_holds", "Hannibal.C14_current", "Hannibal.wellWired14_current"],
+        "cases": {"quick": {"C14": 1200}, "thorough": {"C14": 15000, "C05": 3000, "C02": 3000}},
+        "assumptions": COMMON_ASSUMPTIONS + [
+            "'terminated' = the executor-level end of the actor's task (taskDone / taskPanic / cancel)",
+        ],
+    },
     "C12": {
         "modules": ["Hannibal.Props.C12"],
         "theorems": ["Hannibal.C12_holds", "Hannibal.C12_current", "Hannibal.C12_state",
